@@ -4,6 +4,7 @@
 -/
 import LyonVerif.Drive.Common
 import LyonVerif.Model.Algo.Hatch
+import LyonVerif.Model.Algo.HatchCurves
 
 namespace Lyon.Drive.C20
 open Lyon Lyon.Drive Lyon.Hatch
@@ -23,15 +24,17 @@ def rdOffsets (v : Array String) (i : Nat) : (Nat → F) × Nat :=
     let tail : F := rd v (i + 2 + n)
     (fun row => if h : row < tab.size then tab[row] else tail, i + 3 + n)
 
-/-- `P n (B x y | L x y | E)*` -/
-def rdEvents (v : Array String) (i : Nat) : List (PEv F) :=
+/-- `P n (B x y | L x y | Q cx cy x y | C c1x c1y c2x c2y x y | E)*` -/
+def rdEvents (v : Array String) (i : Nat) : List (CEv F) :=
   let n := rdNat v (i+1)
-  let rec go : Nat → Nat → List (PEv F) → List (PEv F)
+  let rec go : Nat → Nat → List (CEv F) → List (CEv F)
     | 0, _, acc => acc.reverse
     | k+1, j, acc =>
       match v.getD j "" with
       | "B" => go k (j+3) (.begin (rdP v (j+1)) :: acc)
       | "L" => go k (j+3) (.line (rdP v (j+1)) :: acc)
+      | "Q" => go k (j+5) (.quad (rdP v (j+1)) (rdP v (j+3)) :: acc)
+      | "C" => go k (j+7) (.cubic (rdP v (j+1)) (rdP v (j+3)) (rdP v (j+5)) :: acc)
       | _ => go k (j+1) (.close :: acc)
   go n (i+2) []
 
@@ -45,13 +48,16 @@ def hatchTrace (items : List (HItem F)) : List String :=
     | .off r => ["o", toString r]
     | .seg s => fSegTokens s
 
+/-- `h angle uv ct <offsets> P …` (polygonal) / `H angle uv ct tol <offsets> P …` (curved) -/
 def hatchH (v : Array String) : String :=
+  let curved := v.getD 0 "" == "H"
   let angle : F := rd v 1
   let uv : P F := rdP v 2
   let ct := v.getD 4 "0" == "1"
-  let (offs, j) := rdOffsets v 5
+  let tol : F := if curved then rd v 5 else Float32.ofScientific 1 true 1
+  let (offs, j) := rdOffsets v (if curved then 6 else 5)
   let evs := rdEvents v j
-  match hatchPath ⟨angle, uv, ct⟩ ⟨nanF, nanF⟩ (logHatch offs) fuel evs [] with
+  match hatchPathCurved ⟨angle, uv, ct⟩ tol ⟨nanF, nanF⟩ (logHatch offs) fuel evs [] with
   | none => "panic"
   | some st =>
     unwords (hatchTrace st.b ++ [if st.fuelOut then "fuel" else "end"])
@@ -76,19 +82,27 @@ def rdDotPat (v : Array String) (i : Nat) : DotPat F × Nat :=
        rowOff := fun _ row => rows row,
        colOff := fun col row => cols.getD ((col + row) % n) 0.0 }, k + 2 + n)
 
+/-- `d angle uv <pattern> P …` / `D angle uv tol <pattern> P …` -/
 def dotsH (v : Array String) : String :=
+  let curved := v.getD 0 "" == "D"
   let angle : F := rd v 1
   let uv : P F := rdP v 2
-  let (pat, j) := rdDotPat v 4
+  let tol : F := if curved then rd v 4 else Float32.ofScientific 1 true 1
+  let (pat, j) := rdDotPat v (if curved then 5 else 4)
   let evs := rdEvents v j
-  match dotPath angle uv ⟨nanF, nanF⟩ pat fuel evs with
+  match dotPathCurved angle tol uv ⟨nanF, nanF⟩ pat fuel evs with
   | none => "panic"
   | some st =>
     unwords (dotTrace st.b.log ++ [if st.fuelOut || st.b.fuelOut then "fuel" else "end"])
 
+/-- the `curves` family holds both kinds of case; the first argument token tells which -/
+def curvesH (v : Array String) : String :=
+  if v.getD 0 "" == "D" then dotsH v else hatchH v
+
 def families : List Family := [
   Family.plain "hatch" hatchH,
-  Family.plain "dots" dotsH ]
+  Family.plain "dots" dotsH,
+  Family.plain "curves" curvesH ]
 
 end Lyon.Drive.C20
 
